@@ -464,6 +464,9 @@ def gen_stmt(c, sc, indent):
             else:
                 c.use("continue_in_while")
         cond = gen_expr(c, sc, BOOL, 1, True)
+        if c.coin(1, 3):
+            c.use("jump_in_else_arm")
+            return [indent + "if %s:" % cond, indent + "    out(%s)" % gen_expr(c, sc, INT, 2, True), indent + "else:", indent + "    " + kw]
         return [indent + "if %s:" % cond, indent + "    " + kw]
     if r == 21 and sc.in_func and sc.ret is not None:
         c.use("early_return")
@@ -569,7 +572,11 @@ def stmt_while(c, sc, indent):
         c.use("continue_in_while")
         pre = gen_block(c, body, c.draw(st.integers(0, 1)), indent + "    ") if c.coin(1, 2) else []
         lines += pre
-        lines += [indent + "    if %s:" % gen_expr(c, body, BOOL, 1, True), indent + "        continue"]
+        if c.coin(1, 3):
+            c.use("jump_in_else_arm")
+            lines += [indent + "    if %s:" % gen_expr(c, body, BOOL, 1, True), indent + "        pass", indent + "    else:", indent + "        continue"]
+        else:
+            lines += [indent + "    if %s:" % gen_expr(c, body, BOOL, 1, True), indent + "        continue"]
     lines += gen_block(c, body, c.draw(st.integers(1, 3)), indent + "    ")
     if c.allow("while_else") and c.coin(3, 4):
         c.use("while_else")
